@@ -293,7 +293,7 @@ theorem setModel_wf {a a' : Arr} {ix : Index} {v : Val} (hw : WF a) (hv : WFVal 
     split at h; · cases h
     split at h; · cases h
     split at h; · cases h
-    rename_i hst _ _ hn
+    rename_i hst hn _ _
     split at h
     · split at h
       · cases h
@@ -646,7 +646,7 @@ theorem stackArrays_wf {xs : List Arr} {a' : Arr} (hw : ∀ a ∈ xs, WF a) (h :
     split at h; · cases h
     split at h; · cases h
     split at h; · cases h
-    rename_i hst _ hn
+    rename_i hst hn _
     cases h
     have hf := hw f (by simp)
     refine ⟨hf.cols, ?_, (fun hs => nomatch hs), ?_, hf.bonds⟩
